@@ -415,9 +415,9 @@ func init() {
 						}
 					}
 				}},
-				{Name: "reflexive-random", N: tierN(tier, 20000, 300000), Run: func(c *Ctx, idx int) {
+				{Name: "reflexive-random", N: tierN(tier, 20000, 120000), Run: func(c *Ctx, idx int) {
 					g := exactGen(c, false, idx)
-					x, label := randomValue(g, tierN(tier, 2, 4))
+					x, label := randomValue(g, tierN(tier, 2, 3))
 					it := x.(vocab.Item)
 					c.Distinct("R|rand|"+vmodel.Fingerprint(vmodel.Canon(x, vmodel.Exact)), true)
 					c.Count("law:R", 1)
